@@ -70,7 +70,7 @@ OW_QUICK = ['40,1,41,1,2', '1,40,6,6,41,6,2', '1,1,2,8,2,1,3', '40,41,1,8,1,1,2'
 JOIN_QUICK = ['1,2,6', '1,1,2,6,2,6', '2,2,1,6,1,6', '1,2,6,7,1,2,7', '1,1,2,2,6,7', '2,1,6,1,2,6,7', '1,2,1,2,6,7,7', '2,2,2,1,6,1,6,1,6', '1,1,1,1,1,2,6,2,6', '1,2,7,7,2,1,6']
 LIM_QUICK = [(1, '1,1,21,1'), (2, '1,1,1,22,1,1'), (1, '51,1,1'), (2, '1,52,1,1'), (2, '53,1,1,1'), (1, '1,23,1,1'), (3, '1,1,1,1,23,1,1,1'), (1, '20,1,1'),
              (1, '4,3,3,21,3'), (2, '4,3,3,3,22,3'), (2, '1,4,22,3,1'), (1, '4,1,3,21,3'), (2, '4,3,1,3,21')]
-PRIO_QUICK = [('TTTGGG', '0'), ('TTTXG', '1'), ('TTRTLG', '0'), ('TTTRCG', '0'), ('TTXTXG', '3')]
+PRIO_QUICK = [('TTTTGG', '0'), ('TTTGGG', '0'), ('TTTXG', '1'), ('TTRTLG', '0'), ('TTTRCG', '0'), ('TTXTXG', '3')]
 BUF_QUICK = ['TTXG', 'TRXLX', 'TRGC', 'TTRGCG', 'TRCTX', 'TXTXG', 'TTTTTXG', 'TRLG', 'TXRTCX', 'TTXGGG']
 
 AGGCUT = ['E7executeINS1_19aggregating_functorI']   # aggregator_generic<Op>::execute<aggregating_functor<Node,Op>>
@@ -114,7 +114,7 @@ HARNESSES = [
                           [sc for q, a in (('TTTTTGG', '0'), ('TTTTXGT', '1'), ('TTTTRTLGG', '0'), ('TTTGTGTGG', '0'), ('TTXTTXGG', '2')) for sc in bufnode_pick([q], 1, [a])],
        desc='priority_queue_node<int> (std::less), same driver: every hand-out (get / reserve / accepted offer) is a maximum of the buffered values (heapify/reheap/'
             'prio_use_tail with symbolic values), reserve takes the maximum aside and release puts it back, nothing lost or duplicated',
-       bounds={'ops per sequence': 'quick: 5 hand-picked sequences of 5-6 ops; thorough: all sequences of 4 ops + 5 longer sequences with 4-5 items', 'heap size': 'quick <= 3, thorough <= 5',
+       bounds={'ops per sequence': 'quick: 6 hand-picked sequences of 5-6 ops; thorough: all sequences of 4 ops + 5 longer sequences with 4-5 items', 'heap size': 'quick <= 4, thorough <= 5',
                'successors': '1', 'accept patterns': 'concrete', 'message values': 'symbolic, pairwise distinct'}, timeout=600, thorough_override={'timeout': 2400}),
   dict(name='limiter_node', unit='limiter', harness='h_limiter.c', cbmc=['--unwind', '16'] + FS, defines={'memset': 'vp_memset'},
        scenarios_quick=[{'THR': t, 'OPS': o, 'ACCS': '15,0,5,10', 'AVAIL': 2} for t, o in LIM_QUICK],
